@@ -171,6 +171,16 @@ Section Sim.
           simpl. rewrite H3. simpl. rewrite Hgate. eexists. split; [reflexivity|]. split.
           -- unfold R0, Jc in *; simpl. rs.
           -- exact HInv'.
+        * (* KSyncClock: the clock moves while the callback runs *)
+          match goal with |- context [schedule_next ?x] => set (s1 := x) in * end.
+          set (c2 := mkC t (c_rnd c) true (a + s_inflight s) (c_depth c) (c_clean c) (c_start c) (c_prev c) (c_n c)).
+          assert (HR2 : R0 s1 c2).
+          { unfold R0, Jc, s1, c2 in *; simpl. rs. }
+          destruct (sim_schedule_next (Some (KSyncClock t)) s1 c2 HR2) as (c' & E1 & E2 & E3).
+          destruct (schedule_next s1) as [s2 o] eqn:Es. simpl in *.
+          exists c'. split.
+          -- rewrite H3. simpl. rewrite Hgate. simpl. rewrite H4. simpl. exact E1.
+          -- split; [exact E2|]. rewrite E3. exact HInv'.
       + (* stopped: _run returns at once *)
         simpl. rewrite H4. simpl. eexists. split; [reflexivity|]. split.
         * unfold R0, Jc in *; simpl. rs.
